@@ -107,7 +107,8 @@ def gen_cases(ctx, n):
     rng = ctx.rng
     cases = []
     for i in range(n):
-        g = MG.Gen(rng, max_depth=2 if ctx.tier == "quick" else 4, big_tuples=True, arrays=True)
+        g = MG.Gen(rng, max_depth=2 if ctx.tier == "quick" else 4, big_tuples=True, arrays=True,
+                   families=("uniform", "uniform", "uniform", "gaussian", "loguniform"))
         prog = g.program()
         if len(prog["pool"]) > 40:
             continue
